@@ -66,6 +66,7 @@ class Book(ss.Analyzer):
                 self.problems.append((ti, f'state {st.name} has len_used={st.len_used}, len(raw)={len(st.raw)} but n_uid={n}'))
         for arr in (ppl.slot, ppl.parent):
             if arr.len_used != n: self.problems.append((ti, f'{arr.name} has len_used={arr.len_used} but n_uid={n}'))
+            if len(arr) != len(ppl.auids): self.problems.append((ti, f'the active view of people.{arr.name} has {len(arr)} entries, the population has {len(ppl.auids)} active agents'))
         # every agent array held by a module (found through the module, not through the people's registry) covers the whole id space
         for mod in sim.modules:
             for k, v in mod.__dict__.items():
